@@ -36,6 +36,10 @@ type C04Case struct {
 	// (1 handler error, 2 kill), a successor claims the name as soon as it is free and a third process
 	// links (odd) or monitors (even variant: Reuse+2) that name once the successor owns it
 	Reuse int `json:"reuse,omitempty"`
+	// Born (> 0): the name-being-born scenario: a process is being spawned under a registered name (its
+	// Init has scheduling points) while 1-2 requesters link (odd) or monitor (even) that name; the Init
+	// fails (1, 2) or succeeds and the process is killed later (3, 4)
+	Born int `json:"born,omitempty"`
 }
 
 type c04 struct{}
@@ -50,7 +54,7 @@ func (c04) Nontrivial() []string {
 }
 func (c04) Rule() string {
 	return "case = 1-3 targets (each with a registered name, an alias and an event) + 1-3 trapping requester actors running link/unlink/monitor/demonitor sequences on pid, name, alias and event of the targets, " +
-		"concurrently with the targets unregistering their name / alias / event or terminating (handler error, normal) and clients killing them or unregistering names through the node; optionally a child spawned with LinkChild that dies at once. " +
+		"(one case in ten: a requester relates to a name whose process is still inside its Init, which then fails or succeeds) concurrently with the targets unregistering their name / alias / event or terminating (handler error, normal) and clients killing them or unregistering names through the node; optionally a child spawned with LinkChild that dies at once. " +
 		"Reference model built from returned results and step-stamped intervals: a relation that was fully established before the target went away and not removed yields exactly one exit/down naming that target with an allowed reason; " +
 		"a request that overlapped the disappearance may fail or be notified; a request after the target is gone must fail; no relation, no notification. " +
 		"Non-trivial = at least one relation was notified, overlapped or was removed in time; distinct = distinct (schedule, history) hashes."
@@ -63,6 +67,9 @@ func (c04) Components() ([]string, []string) {
 func (c04) Generate(r *simkit.Rand, tier string) any {
 	if r.Chance(0.12) {
 		return &C04Case{Targets: 1, Reuse: r.Range(1, 4)}
+	}
+	if r.Chance(0.1) {
+		return &C04Case{Targets: 1, Born: r.Range(1, 4)}
 	}
 	c := &C04Case{Targets: r.Range(1, 3)}
 	nreq := r.Range(1, 3)
@@ -162,6 +169,10 @@ func (c04) Run(e *simkit.Env, cc any) {
 		return
 	}
 	defer simkit.StopNode(e, n, false, 0)
+	if c.Born > 0 {
+		runC04Born(e, n, c)
+		return
+	}
 	if c.Reuse > 0 {
 		runC04Reuse(e, n, c)
 		return
@@ -749,5 +760,126 @@ func runC04Reuse(e *simkit.Env, n gen.Node, c *C04Case) {
 	mu.Unlock()
 	if len(got) != 1 || got[0] != "boom-second" {
 		e.Fail("C04/not-notified", "name-reuse scenario: the owner of the name terminated (boom-second) and the process that links/monitors the name got notifications %v", got)
+	}
+}
+
+// runC04Born: a relation requested on a registered name whose process is still being spawned. The
+// name is visible from the moment SpawnRegister claimed it: a request either fails or is notified
+// exactly once when the name goes away again - because Init failed, or because the process was killed later.
+func runC04Born(e *simkit.Env, n gen.Node, c *C04Case) {
+	var mu sync.Mutex
+	monitor := c.Born%2 == 0
+	initFails := c.Born <= 2
+	name := gen.Atom("born")
+	type req struct {
+		err   error
+		notes []string
+		done  chan struct{}
+	}
+	reqs := []*req{{done: make(chan struct{})}, {done: make(chan struct{})}}
+	for i, rq := range reqs {
+		i, rq := i, rq
+		rh := &Hooks{Name: fmt.Sprintf("born-requester%d", i), Env: e, Trap: true}
+		rh.Message = func(p *Probe, from gen.PID, m any) error {
+			switch v := m.(type) {
+			case string:
+				if v == "relate" {
+					if monitor {
+						rq.err = p.MonitorProcessID(gen.ProcessID{Name: name, Node: n.Name()})
+					} else {
+						rq.err = p.LinkProcessID(gen.ProcessID{Name: name, Node: n.Name()})
+					}
+					e.Logf("requester %d relates to the name -> %v", i, rq.err)
+					close(rq.done)
+				}
+			case gen.MessageExitProcessID:
+				mu.Lock()
+				rq.notes = append(rq.notes, c04Reason(v.Reason))
+				mu.Unlock()
+				e.Logf("requester %d exit for name: %s", i, c04Reason(v.Reason))
+			case gen.MessageDownProcessID:
+				mu.Lock()
+				rq.notes = append(rq.notes, c04Reason(v.Reason))
+				mu.Unlock()
+				e.Logf("requester %d down for name: %s", i, c04Reason(v.Reason))
+			}
+			return nil
+		}
+		rpid, err := spawnUnder(e, n, rh)
+		if err != nil {
+			e.Infra("spawn: " + err.Error())
+			return
+		}
+		e.Go(fmt.Sprintf("relate%d", i), func() {
+			n.Send(rpid, "relate")
+			e.WaitChan(rq.done, time.Minute)
+		})
+	}
+	bh := &Hooks{Name: "born", Env: e, Slow: true}
+	bh.Init = func(p *Probe, args ...any) error {
+		e.Gate("born:init")
+		e.Gate("born:init-2")
+		if initFails {
+			return fmt.Errorf("boom-init")
+		}
+		return nil
+	}
+	var bpid gen.PID
+	var berr error
+	e.Go("spawner", func() {
+		bpid, berr = n.SpawnRegister(name, ProbeFactory(bh), gen.ProcessOptions{})
+		e.Logf("SpawnRegister -> %v", berr)
+	})
+	if !e.WaitClients(5 * time.Minute) {
+		e.Fail("C04/actor-stuck", "name-being-born scenario: an actor did not finish")
+		return
+	}
+	e.Settle(5 * time.Second)
+	if initFails != (berr != nil) {
+		e.Fail("C04/unexpected-failure", "name-being-born scenario: SpawnRegister returned %v (Init fails: %v)", berr, initFails)
+		return
+	}
+	want := "boom-init"
+	if !initFails {
+		for i, rq := range reqs {
+			if rq.err != nil && !errors.Is(rq.err, gen.ErrProcessUnknown) && !errors.Is(rq.err, gen.ErrTargetUnknown) {
+				e.Fail("C04/unexpected-failure", "name-being-born scenario: requester %d: relation on the name failed with %v", i, rq.err)
+				return
+			}
+			mu.Lock()
+			k := len(rq.notes)
+			mu.Unlock()
+			if k != 0 {
+				e.Fail("C04/spurious-notification", "name-being-born scenario: requester %d was notified %v while the owner of the name is alive", i, rq.notes)
+				return
+			}
+		}
+		n.Kill(bpid)
+		e.Settle(5 * time.Second)
+		want = "kill"
+	}
+	for i, rq := range reqs {
+		mu.Lock()
+		got := append([]string(nil), rq.notes...)
+		mu.Unlock()
+		switch {
+		case rq.err != nil:
+			if len(got) != 0 {
+				e.Fail("C04/spurious-notification", "name-being-born scenario: requester %d: the request failed (%v) but it was notified %v", i, rq.err, got)
+				return
+			}
+			e.Probe("request-on-gone-target-refused")
+		case len(got) != 1:
+			e.Fail("C04/race-succeeded-not-notified", "name-being-born scenario (monitor=%v, Init fails=%v): requester %d: the request on the registered name succeeded while its process was being spawned; the name went away (%s) and the requester got notifications %v", monitor, initFails, i, want, got)
+			return
+		case got[0] != want:
+			e.Fail("C04/wrong-reason", "name-being-born scenario: requester %d was notified with reason %q, the name went away because of %q", i, got[0], want)
+			return
+		default:
+			e.Probe("relation-notified")
+			if initFails {
+				e.Probe("request-overlapped-disappearance")
+			}
+		}
 	}
 }
